@@ -66,37 +66,33 @@ def _alternation(pattern: str, group: str) -> set[str] | None:
     # unwrap a single inner (unnamed) group
     while len(body) == 1 and str(body[0][0]) == "SUBPATTERN":
         body = body[0][1][3]
-    alts = set()
-    if len(body) == 1 and str(body[0][0]) == "BRANCH":
-        # sre factors common prefixes: rebuild by expansion
-        def expand(seq):
-            res = [""]
-            for op, av in seq:
-                opn = str(op)
-                if opn == "LITERAL":
-                    res = [r + chr(av) for r in res]
-                elif opn == "BRANCH":
-                    nxt = []
-                    for alt in av[1]:
-                        for e in expand(alt):
-                            nxt += [r + e for r in res]
-                    res = nxt
-                elif opn == "SUBPATTERN":
-                    nxt = []
-                    for e in expand(av[3]):
+    def expand(seq):
+        res = [""]
+        for op, av in seq:
+            opn = str(op)
+            if opn == "LITERAL":
+                res = [r + chr(av) for r in res]
+            elif opn == "BRANCH":
+                nxt = []
+                for alt in av[1]:
+                    for e in expand(alt):
                         nxt += [r + e for r in res]
-                    res = nxt
-                elif opn == "IN" and all(str(o) == "LITERAL" for o, _ in av):
-                    res = [r + chr(c) for r in res for _, c in av]
-                else:
-                    raise ValueError(opn)
-            return res
-        try:
-            return set(expand(body))
-        except ValueError:
-            return None
-    s = lit(body)
-    return {s} if s is not None else None
+                res = nxt
+            elif opn == "SUBPATTERN":
+                nxt = []
+                for e in expand(av[3]):
+                    nxt += [r + e for r in res]
+                res = nxt
+            elif opn == "IN" and all(str(o) == "LITERAL" for o, _ in av):
+                res = [r + chr(c) for r in res for _, c in av]
+            else:
+                raise ValueError(opn)
+        return res
+
+    try:
+        return set(expand(body))
+    except ValueError:
+        return None
 
 
 def run(ctx):
